@@ -96,7 +96,7 @@ TEXT["C14"] = {
     "text": ("Proof: Props/C14.lean proves: an open notification goes only to an accepting module at or above its threshold; within an incident two open notifications to a module are more than its send "
              "interval apart; with send-once at most one per incident; and every incident is announced — at the first evaluation of an incident whose status reaches an accepting module's threshold that "
              "module is notified, for the first and every later incident (every_incident_announced). The last theorem was false of the unchanged code (LastNotify survived incidents): the check found "
-             "it, the defect was repaired in /repo (fix: commit), the model is of the repaired code. reminder_when_interval_elapsed: the interval limits but does not swallow — a module that is not send-once is notified again by the first evaluation of the incident that comes more than its interval after its last notification. Tie: real notifier code vs the compiled model over all option combinations."),
+             "it, the defect was repaired in /repo (fix: commit), the model is of the repaired code. reminder_when_interval_elapsed: the interval limits but does not swallow — a module that is not send-once is notified again by the first evaluation of the incident that comes more than its interval after its last notification. The configuration phase is part of the model and of the stream: N conf ops run the REAL Configure of the notifier coordinator on notifier sections with every setting independently present or absent and compare what notifyModule will read per module and the evaluation pace with ModSpec.cfg / minIntervalOf (defaults_are_the_documented_ones, pace_is_the_shortest_interval). Tie: real notifier code vs the compiled model over all option combinations."),
     "note": ("Trusted: Lean kernel + standard axioms; harness incl. time shifting (interval boundaries approached to 8 ms, never compared exactly). Reading: send-interval applies within an incident."),
 }
 
@@ -109,7 +109,7 @@ TEXT["C05"] = {
              "since the repair of D16: a zero lifetime reached goswarm as 'never expires'), "
              "and serving a filtered view leaves the cache as a full-view request would (filtered_view_pure). The key-collision defect D5 and D16 were found by the check and repaired in /repo; the "
              "stream also meets a storage subsystem that is slow to accept the evaluator's fetch, clusters differing only in case, and a directed staleness scenario (full view, problems-only view, "
-             "change, problems-only view again just after one lifetime). Tie: real CachingEvaluator + goswarm on real storage vs the compiled model."),
+             "change, problems-only view again just after one lifetime), and two requests for one group in flight together while its entry has expired and storage has changed (cqdup: both answers must be the status now). Tie: real CachingEvaluator + goswarm on real storage vs the compiled model."),
     "note": ("Trusted: Lean kernel + standard axioms; harness incl. cache-ageing hook; goswarm modelled from source. Not modelled: goroutine-per-request scheduling and liveness (observed only), "
              "evaluation time. The tie is sampled."),
 }
@@ -151,7 +151,7 @@ TEXT["C10"] = {
              "leave storage untouched, and after any history every group in any listing was created by an accepted commit or ownership update (storage_tracks_only_accepted); the offsets-topic "
              "reader forwards no offset, ownership, clear or delete request for a rejected group for any bytes (kafka_reader_forwards_only_accepted — false before the repair of the metadata path, "
              "found by the check); a notifier module is never notified, open or close, about a group its lists reject. Tie: storage, decode and notifier streams with list pairs; regexp matching is an oracle bit. "
-             "The Zookeeper reader's gate is not yet tied by a stream (see note). Zookeeper reader: zk_reader_forwards_only_accepted (for every tree, op — Start, any later change, the re-initialisation after a session expiry — and verdict function of the lists, nothing is forwarded for a rejected group) and zk_reader_forwards_accepted_commits, over Model/ZkReader.lean, tied by the zkreader stream; zk_reader_rewalk_is_complete (after Start and after every session expiry each parsable commit of an accepted group in the tree is forwarded again)."),
+             "The Zookeeper reader's gate is not yet tied by a stream (see note). Zookeeper reader: zk_reader_forwards_only_accepted (for every tree, op — Start, any later change, the re-initialisation after a session expiry — and verdict function of the lists, nothing is forwarded for a rejected group) and zk_reader_forwards_accepted_commits, over Model/ZkReader.lean, tied by the zkreader stream; the notifier modules' lists are also observed after the REAL Configure of the notifier coordinator (N conf ops: each module is constructed with its own lists and nothing else); zk_reader_rewalk_is_complete (after Start and after every session expiry each parsable commit of an accepted group in the tree is forwarded again)."),
     "note": ("Trusted: Lean kernel + standard axioms; harness; regexp engine as oracle. Partial: the Zookeeper reader path has a single accept gate (resetGroupListWatchAndAdd) that is read, not "
              "modelled; ZK watch dynamics are not modelled."),
 }
@@ -213,8 +213,8 @@ TEXT["C18"] = {
              "the model of viper's resolution takes a key only to a node whose raw keys spell it — and resolve_avoids_password); what remains outside the general statement are the values of "
              "the one table-valued read (a notifier's extras, from the module's own table), which rest on the differential run and the containment test. The "
              "scrape does not read configuration at all; `decide` over the facts REGENERATED from package httpserver shows that no viper key literal names a password/secret/token, that the "
-             "model reads only suffixes that occur in the source, and pins the list of table-valued viper reads (no_password_key_read, model_reads_only_source_literals, "
-             "table_reads_are_the_modelled_ones). Tie: configurations of every module class and profile shape, with plain and dotted names (incl. the D20 pair), passwords of several shapes "
+             "model reads only suffixes that occur in the source, and pins the list of table-valued viper reads — each with its enclosing function and multiplicity (no_password_key_read, model_reads_only_source_literals, "
+             "table_reads_are_the_modelled_ones). Tie: configurations of every module class and profile shape, with plain and dotted names (incl. the D20 pair), SASL profiles nested inside one another, passwords of several shapes "
              "(leading $, %…%, surrounding blanks, trailing newline), rendered with two random password assignments, all config routes x all names; each response equals the model's field by "
              "field; plus a containment TEST (labelled as a test) for the concrete password values, raw and JSON-escaped, on both sides."),
     "note": ("Trusted: Lean kernel + 3 standard axioms; viper modelled as a flattened raw-key-path map with its longest-prefix key resolution (validated differentially incl. dotted configured names; empty tables are leaves); log output and process environment not modelled. The tie is sampled. What is proved in general is the _partial statement (Plain configurations); the D20 leak outside it was repaired."),
